@@ -256,6 +256,7 @@ func run(scriptPath string) int {
 	}
 	var inst *casket.Instance
 	var firstInst *casket.Instance // the first instance this process started
+	var loaded []*casket.Instance  // the handle each load step returned
 	occupied := map[string]net.Listener{}
 	occupiedUDP := map[string]net.PacketConn{}
 	for _, st := range sc.Steps {
@@ -276,11 +277,19 @@ func run(scriptPath string) int {
 				i, err := casket.Start(in)
 				if err == nil {
 					inst = i
+					loaded = append(loaded, i)
 					if firstInst == nil {
 						firstInst = i
 					}
 				}
 				done <- err
+			case "stop-load":
+				// the application stops the handle its N-th load returned, whatever has become of that instance since
+				if st.N < len(loaded) {
+					done <- loaded[st.N].Stop()
+				} else {
+					done <- fmt.Errorf("no load %d", st.N)
+				}
 			case "stop-first-later":
 				// N milliseconds from now, from another goroutine, stop the first instance this process started
 				fi, delay := firstInst, time.Duration(st.N)*time.Millisecond
